@@ -214,6 +214,149 @@ def specials():
     ]
 
 
+def edge_regions(ctx, thorough):
+    """regions made of pixels at levels 6..10 around the places where text formatting of coordinates is delicate:
+    the strip -1 deg < Dec < 0 just south of the equator (degrees field 0 with a minus sign), Dec = 0, RA near
+    0h/24h, and the poles"""
+    hp = c8.hp_()
+    rng = ctx.rng
+    out = []
+    depths = [6, 7, 8, 9, 10] if thorough else [6, 7, 9]
+    for m in depths:
+        for d in ([m] if (m == 6 or not thorough) else [m, m - 1]):
+            ras = [0.0005, 359.9995, 45.0, 180.0 - 0.01, rng.uniform(0, 360), rng.uniform(0, 360)]
+            pts = [(ra, dec) for ra in ras for dec in (-0.05, -0.3, -0.55, -0.8, -0.97, 0.0, 0.3)]
+            pts += [(rng.uniform(0, 360), sgn * 89.97) for sgn in (1, -1)] + [(0.0002, 30.0), (359.9998, -30.0)]
+            ra = np.radians([p_[0] for p_ in pts])
+            dec = np.radians([p_[1] for p_ in pts])
+            pix = sorted(set(int(x) for x in hp.ang2pix(2 ** d, np.pi / 2 - dec, ra, nest=True)))
+            for k in range(0, len(pix), 22):
+                out.append((m, [['N', d, pix[k:k + 22]]]))
+    return out
+
+
+def read_moc(ffits):
+    from astropy.io import fits
+    with fits.open(ffits) as h:
+        col = [int(x) for x in h[1].data['NPIX']] if len(h[1].data) else []
+        return sorted(decode(u) for u in col), h[1].header.get('MOCORDER')
+
+
+def file_scenario(ctx, m, itemsA, itemsB, variant, tmp):
+    """A and B are saved under FIXED file names (rewritten by every scenario, as a long-lived process would), the
+    file of A is loaded and the loaded object modified in place (directly, or by MIMAS.intersect_regions /
+    combine_regions which load by file name), and then the unchanged file is loaded / converted again: it must
+    still describe exactly the region that was saved.  Returns list of (what, detail)."""
+    from AegeanTools import MIMAS
+    from AegeanTools.regions import Region
+    hp = c8.hp_()
+    probs = []
+
+    def build(items):
+        r = Region(m)
+        for it in items:
+            r, _, _ = c8.apply_item(r, it, tmp)
+        return r
+    try:
+        A, B = build(itemsA), build(itemsB)
+    except Exception as e:
+        raise HistoryError('%s: %s' % (type(e).__name__, e))
+    wantA, stateA = pixel_pairs(A), c8.state_str(A)
+    SA = cover(wantA, m) if all(isinstance(p, int) for _, p in wantA) else None
+    wantB = pixel_pairs(B)
+    SB = cover(wantB, m) if all(isinstance(p, int) for _, p in wantB) else None
+    f1, f2 = os.path.join(tmp, 'scenario_a.mim'), os.path.join(tmp, 'scenario_b.mim')
+    A.save(f1)
+    B.save(f2)
+    first = Region.load(f1)
+    if c8.state_str(first) != stateA:
+        probs.append(('mim-roundtrip', 'first load(save(r)) = %s but r = %s' % (c8.state_str(first)[:150], stateA[:150])))
+    alive = [first]
+    if variant == 'intersect_regions':
+        res = MIMAS.intersect_regions([f1, f2])
+        alive.append(res)
+        prob, cov, _ = c8.inspect(res)
+        if SA is not None and SB is not None and not prob and cov != (SA & SB):
+            probs.append(('intersect-regions', 'MIMAS.intersect_regions covers %d deepest pixels, A & B has %d'
+                          % (len(cov), len(SA & SB))))
+    elif variant == 'without':
+        a = Region.load(f1)
+        a.without(Region.load(f2))
+        alive.append(a)
+    elif variant == 'add':
+        a = Region.load(f1)
+        a.add_pixels([p for d_, p in wantB if d_ == m][:5] or [0], m)
+        a._renorm()
+        alive.append(a)
+    elif variant == 'combine':
+        cont = MIMAS.Dummy(maxdepth=m)
+        cont.add_region = [[f1]]
+        cont.rem_region = [[f2]]
+        alive.append(MIMAS.combine_regions(cont))
+    elif variant == 'query':
+        a = Region.load(f1)
+        a.get_demoted()
+        alive.append(a)
+    # ---- the file has not been touched: everything read from it must still be A
+    again = Region.load(f1)
+    if c8.state_str(again) != stateA:
+        probs.append(('mim-roundtrip', 'after %s on a loaded copy, load() of the unchanged file gives %s but %s was saved'
+                      % (variant, c8.state_str(again)[:150], stateA[:150])))
+    ffits, freg = os.path.join(tmp, 'scenario_a.fits'), os.path.join(tmp, 'scenario_a.reg')
+    MIMAS.mim2fits(f1, ffits)
+    got, order = read_moc(ffits)
+    if got != wantA:
+        probs.append(('moc-pixels', 'after %s on a loaded copy, mim2fits of the unchanged file decodes to %d cells, %d pixels '
+                      'were saved; missing %s unexpected %s' % (variant, len(got), len(wantA),
+                                                               [x for x in wantA if x not in got][:5],
+                                                               [x for x in got if x not in wantA][:5])))
+    if order != m:
+        probs.append(('mocorder', 'MOCORDER = %r but the region depth is %d' % (order, m)))
+    if len(wantA) <= 40:
+        MIMAS.mim2reg(f1, freg)
+        polys, err = read_reg(freg)
+        if err:
+            probs.append(('reg-polygons', err))
+        else:
+            matched = [match_polygon(hp, p_, m) for p_ in polys]
+            if None in matched or sorted(matched) != wantA:
+                probs.append(('reg-polygons', 'after %s on a loaded copy, mim2reg of the unchanged file draws %s, saved %s'
+                              % (variant, sorted(x for x in matched if x)[:6], wantA[:6])))
+    return probs
+
+
+VARIANTS = ('intersect_regions', 'without', 'add', 'combine', 'query')
+
+
+def run_file_scenarios(ctx, n):
+    rng = ctx.rng
+    tmp = ctx.tmpdir()
+    seen = set()
+    for k in range(n):
+        m = rng.choice([2, 3, 4, 5, 6, 8])
+        d = rng.randint(max(1, m - 1), m)
+        psA = c8.rand_pixels(rng, d, rng.randint(2, 8))
+        shared = [p * 4 ** (m - d) for p in psA[:2]]
+        itemsA = [['N', d, psA]] + ([['D']] if rng.random() < 0.3 else [])
+        itemsB = [['N', m, sorted(set(shared + c8.rand_pixels(rng, m, rng.randint(1, 5))))]]
+        variant = VARIANTS[k % len(VARIANTS)]
+        case = dict(scenario='files', m=m, A=itemsA, B=itemsB, variant=variant)
+        try:
+            probs = file_scenario(ctx, m, itemsA, itemsB, variant, tmp)
+        except HistoryError:
+            ctx.count('skipped: the history itself raised (see C08)')
+            continue
+        except Exception as e:
+            probs = [('export-raises', 'file scenario raised %s: %s' % (type(e).__name__, e))]
+        for what, detail in probs:
+            if what not in seen:
+                seen.add(what)
+                ctx.fail('spec', case, detail, dict(site='regions.Region.load/save + MIMAS', what=what,
+                                                    history_dependence=True, level_maxdepth_lost=False))
+        ctx.count('file scenario ' + variant)
+        ctx.case(case, nontrivial_key=None if probs else 'files %s' % json.dumps(case, sort_keys=True), sample_every=17)
+
+
 def gen_cases(ctx, n):
     rng = ctx.rng
     cases = list(specials())
@@ -353,8 +496,9 @@ def translator_selfcheck(ctx):
 def run(ctx):
     common.use_repo()
     translator_selfcheck(ctx)
-    cases = gen_cases(ctx, 40 if ctx.quick else 400)
+    cases = gen_cases(ctx, 40 if ctx.quick else 400) + edge_regions(ctx, not ctx.quick)
     run_cases(ctx, cases, not ctx.quick)
+    run_file_scenarios(ctx, 25 if ctx.quick else 200)
 
 
 def search(ctx):
@@ -364,7 +508,8 @@ def search(ctx):
     saved = ctx.driver_ok
     ctx.driver_ok = False          # implementation vs Spec only
     try:
-        run_cases(ctx, gen_cases(ctx, 60), False)
+        run_cases(ctx, gen_cases(ctx, 60) + edge_regions(ctx, False), False)
+        run_file_scenarios(ctx, 25)
     finally:
         ctx.driver_ok = saved
 
@@ -372,6 +517,12 @@ def search(ctx):
 def replay(ctx, rec):
     common.use_repo()
     c = rec['case']
+    if c.get('scenario') == 'files':
+        for what, detail in file_scenario(ctx, c['m'], c['A'], c['B'], c['variant'], ctx.tmpdir()):
+            ctx.fail('spec', c, detail, dict(site='regions.Region.load/save + MIMAS', what=what, history_dependence=True,
+                                             level_maxdepth_lost=False))
+        ctx.case(c)
+        return
     if 'items' not in c:
         translator_selfcheck(ctx)
         return
